@@ -157,6 +157,80 @@ def proto(N: int, K: int, kind: str, maxsize: int = 0, cancels: int = 2, via: st
     return scenario
 
 
+def endpoint(frames: int, K: int, path: str, bufsize: int = 16, via: str = "cancel", prefix: list = ()):
+    """AsyncStreamEndpoint.recv_packet over an in-memory transport: `frames` one-byte frames + LF arrive in solver-chosen pieces
+    while recv_packet tasks are cancelled at solver-chosen moments (task.cancel() or backend.timeout(0)-style scope expiry)."""
+    from easynetwork.lowlevel.api_async.endpoints.stream import AsyncStreamEndpoint
+    from easynetwork.protocol import BufferedStreamProtocol, StreamProtocol
+
+    from . import streamlib as L
+    from .asyncenv import MemStreamTransport
+
+    def scenario(S):
+        stream = b""
+        expect = []
+        for i in range(frames):
+            stream += bytes([65 + i]) + b"\n"
+            expect.append(bytes([65 + i]))
+        N = len(stream)
+        with loop_context() as loop:
+            be = backend()
+            tr = MemStreamTransport(be, stream, available=0, loop=loop)
+            ser = L.RawSep(b"\n", limit=8)
+            ep = AsyncStreamEndpoint(tr, BufferedStreamProtocol(ser) if path == "buf" else StreamProtocol(ser), max_recv_size=bufsize)
+            st = {"got": [], "task": None, "errors": [], "cancels": 0, "cancel_pending": 0}
+
+            async def recv_once():
+                if via == "scope":
+                    with be.move_on_after(10):
+                        st["got"].append(await ep.recv_packet())
+                else:
+                    st["got"].append(await ep.recv_packet())
+
+            def harvest():
+                t = st["task"]
+                if t is not None and t.done():
+                    st["task"] = None
+                    if not t.cancelled() and t.exception() is not None:
+                        st["errors"].append(repr(t.exception()))
+
+            for i in range(K):
+                harvest()
+                if st["task"] is None:
+                    st["task"] = loop.create_task(recv_once())
+                c = prefix[i] if i < len(prefix) else S.choice(3, f"ev{i}")
+                if c == 0:
+                    loop.step()
+                elif c == 1:
+                    tr.feed(S.int(1, 4, f"k{i}"))
+                else:
+                    if st["cancels"] < 2 and not st["task"].done():
+                        st["cancels"] += 1
+                        st["cancel_pending"] += 1
+                        if via == "scope":
+                            loop.advance(11)
+                        else:
+                            st["task"].cancel()
+                    else:
+                        loop.step()
+            tr.feed(N)
+            steps = 0
+            while steps < 6 * frames + 20:
+                steps += 1
+                harvest()
+                if st["task"] is None:
+                    if len(st["got"]) >= frames:
+                        break
+                    st["task"] = loop.create_task(recv_once())
+                loop.step()
+            harvest()
+            ok = st["task"] is None and not st["errors"] and st["got"] == expect
+            tags = ("cancel-on-pending-receive",) if st["cancel_pending"] else ()
+            return Outcome(ok=ok, skeleton=(len(st["got"]), len(st["errors"])), tags=tags, detail={"got": st["got"], "expected": expect, "errors": st["errors"]})
+
+    return scenario
+
+
 def shards(tier: str):
     import itertools
 
@@ -178,4 +252,8 @@ def shards(tier: str):
     for kind, via, maxsize in deep:
         for pre in itertools.product(range(3), repeat=2 if quick else 3):
             add(f"proto/{kind}/K{K}/{via}/m{maxsize}/pre{''.join(map(str, pre))}", dict(N=N, K=K, kind=kind, maxsize=maxsize, via=via, prefix=list(pre)), cost=9 ** (K - len(pre)) * 3)
+    for path in ("copy", "buf"):
+        for via in ("cancel", "scope"):
+            for pre in itertools.product(range(3), repeat=1):
+                out.append({"name": f"endpoint/{path}/{via}/K{4 if quick else 5}/pre{pre[0]}", "scenario": "props.c10:endpoint", "params": dict(frames=3, K=4 if quick else 5, path=path, via=via, prefix=list(pre)), "budget": B, "cost": 200, "per_path_timeout": 30})
     return out
